@@ -130,6 +130,20 @@ def main():
             traceback.print_exc()
             return 3
         targets = sorted(c.target for c in reg.contracts.values() if not c.extern and prop in c.all_props())
+        # A-PLAN link: the well-formedness preconditions of Executor.run_plan must be, clause for clause, postconditions of
+        # ExecutionPlanner.create_plan_for (same text with `plan` for `result`), so that the executor proofs rest on a theorem
+        plan_link = None
+        rp = next((c for c in reg.contracts.values() if c.target.endswith("::Executor.run_plan") and not c.extern), None)
+        cp = next((c for c in reg.contracts.values() if c.target.endswith("::ExecutionPlanner.create_plan_for") and not c.extern), None)
+        if rp is not None and cp is not None and prop in ("C01", "C02", "C03", "C04", "C09"):
+            post = {cl.label: " ".join(cl.expr.replace("result.", "plan.").split()) for cl in cp.ensures}
+            plan_link = {}
+            for cl in rp.requires:
+                if cl.label in ("plan_ops_marked", "plan_well_formed", "initial_ops_are_the_ops_without_dependencies"):
+                    plan_link[cl.label] = post.get(cl.label) == " ".join(cl.expr.split())
+            gi = next((cl for cl in rp.requires if cl.label == "ghost_initial"), None)
+            if gi is not None and "ghost_initial" in post:
+                plan_link["ghost_initial"] = post["ghost_initial"] in " ".join(gi.expr.split())
         if not targets:
             errors.append("no function under contract is tagged with %s (zero obligations)" % prop)
         by_name = {l.name: l for l in reg.logic.lemmas}
@@ -182,20 +196,34 @@ def main():
             else:
                 rec["detail"] = r["detail"]
             ob_records.append(rec)
-        # thorough: second solver on every discharged VC
+        # thorough: a second, independent solver on the discharged VCs (the same text that was proved: the core VC when
+        # the proof came from the core), 10 s each, within a wall-clock budget; the evidence says how many were
+        # cross-checked and with what outcome. Only a `sat` answer of the second solver is a disagreement.
+        second = {"cross_checked": 0, "confirmed_unsat": 0, "second_solver_unknown": 0, "not_reached_within_budget": 0}
         if tier == "thorough":
             idx = [i for i, r in enumerate(results) if r["status"] == "unsat"]
+            budget_end = time.time() + 600
+            cores_ = [o.get("core") for o in packed]
+
+            def cross(i):
+                if time.time() > budget_end:
+                    return i, None, None
+                was_core = results[i]["solver"].endswith("/core") and cores_[i]
+                other = ["cvc5"] if not results[i]["solver"].startswith("cvc5") else ["z3new"]
+                return i, other[0], solve.solve_text(cores_[i] if was_core else texts[i], 10, None, other)
             with cf.ThreadPoolExecutor(max_workers=12) as ex:
-                futs = {}
-                for i in idx:
-                    other = ["cvc5"] if results[i]["solver"] != "cvc5" else ["z3new"]
-                    futs[ex.submit(solve.solve_text, texts[i], timeout_s, None, other)] = (i, other[0])
-                for f in cf.as_completed(futs):
-                    i, oth = futs[f]
-                    r2 = f.result()
+                for i, oth, r2 in ex.map(cross, idx):
+                    if r2 is None:
+                        second["not_reached_within_budget"] += 1
+                        continue
+                    second["cross_checked"] += 1
                     ob_records[i]["second_solver"] = "%s:%s" % (oth, r2["status"])
-                    if r2["status"] == "sat":
+                    if r2["status"] == "unsat":
+                        second["confirmed_unsat"] += 1
+                    elif r2["status"] == "sat":
                         errors.append("solver disagreement on %s" % ob_records[i]["name"])
+                    else:
+                        second["second_solver_unknown"] += 1
         # vacuity probes (only meaningful when nothing failed)
         if all(r["status"] == "unsat" for r in results) and not undecided:
             for nme in solve.probe_texts(probes):
@@ -332,6 +360,8 @@ def main():
         "explanation": pm.get("explanation", ""),
         "known_findings_printed": known_lines,
         "ghost_assumes_in_sidecar": sorted(set(ghost_assumes)),
+        "second_solver": locals().get("second", {}),
+        "a_plan_link_planner_post_equals_executor_pre": locals().get("plan_link"),
         "extraction_drops": "docstrings, comments, type annotations (used only to choose sorts), print_* cosmetics; `assert` statements become obligations",
     }
     ev = {"property_id": prop, "tier": tier, "seed": seed, "level": level, "coverage": coverage,
